@@ -143,6 +143,16 @@ def run(case, ctx):
                 if repr(p) not in s:
                     ctx.violate("C05/report:missing-path", f"report does not name failing path {p!r}")
                     break
+    # history: the caller edits its document after the test and only then reads the outcome
+    d3 = M.deep_copy(doc)
+    ok, rt3 = call(rule.test, d3)
+    if ok:
+        _edit_scalars(d3)
+        okr, got3 = call(lambda: (rt3.is_valid, rt3.tested, [tuple(f.path) for f in rt3.failures]))
+        ctx.count("entry:outcome-read-after-document-edit")
+        if not okr or got3 != (exp["valid"], exp["tested"], [p for p, _ in exp["failures"]]):
+            ctx.violate(f"C05/outcome-depends-on-later-edit/{pcls}/{ccls}", f"outcome read after the caller edited the document: {got3!r}; "
+                        f"the document as tested gives valid={exp['valid']}, failing paths {[p for p, _ in exp['failures']]}; rule={rterm}")
     # history: the same rule object tests another document and then this one again
     other = PC.ZOO_DOC if doc is not PC.ZOO_DOC else PC.ZOO_LIST
     eo = M.rule_model(rterm, other)
@@ -174,3 +184,16 @@ def run(case, ctx):
         ctx.mark_nontrivial((repr(rterm), repr(doc)))
         if nf >= 2:
             ctx.sample({"rule": rterm, "doc": doc, "expected_failures": [list(p) for p, _ in exp["failures"]]}, cap=3)
+
+
+def _edit_scalars(x):
+    """in place: every scalar leaf is replaced by a value of another kind"""
+    it = x.items() if type(x) is dict else enumerate(x)
+    for k, v in list(it):
+        if type(v) in (dict, list):
+            if v:
+                _edit_scalars(v)
+            else:
+                x[k] = "was-empty"
+        else:
+            x[k] = [] if type(v) in (int, float, str, bool) else 0
